@@ -179,7 +179,7 @@ class StubsStringGenerator:
             from_ = _replace_if_safeds_keyword(from_)
 
             name = import_parts[-1]
-            name = _convert_name_to_convention(name, self.naming_convention)
+            name = _convert_name_to_convention(name, self.naming_convention, is_class_name=True)
             name = _replace_if_safeds_keyword(name)
 
             import_strings.append(f"from {from_} import {name}")
@@ -290,7 +290,7 @@ class StubsStringGenerator:
 
                 if not is_internal_superclass:
                     self._add_to_imports(superclass)
-                    superclass_names.append(superclass_name)
+                    superclass_names.append(self._create_class_name_string(superclass_name))
                 else:
                     # For internal superclasses, we have to add their public members to subclasses.
                     superclass_methods_text += self._create_internal_class_string(
@@ -713,7 +713,7 @@ class StubsStringGenerator:
                     if name[0] == "_" and type_data["qname"] not in self.module_imports:
                         self._current_todo_msgs.add("internal class as type")
 
-                    return name
+                    return self._create_class_name_string(name)
         elif kind == "FinalType":
             return self._create_type_string(type_data["type"])
         elif kind == "CallableType":
@@ -751,7 +751,7 @@ class StubsStringGenerator:
             if name == "Set":
                 self._current_todo_msgs.add("no set support")
             elif name == "NamedSequence":
-                name = type_data["name"]
+                name = self._create_class_name_string(type_data["name"])
                 self._add_to_imports(type_data["qname"])
 
             if types:
@@ -1081,6 +1081,11 @@ class StubsStringGenerator:
 
             if qname.replace(".", "/") != self._get_module_id():
                 self.module_imports.add(qname)
+
+    def _create_class_name_string(self, name: str) -> str:
+        """Render a class name where it is used (type, superclass) the same way it is rendered where it is declared."""
+        class_name = _convert_name_to_convention(name, self.naming_convention, is_class_name=True)
+        return _replace_if_safeds_keyword(class_name)
 
     def _create_todo_msg(self, indentations: str) -> str:
         if not self._current_todo_msgs:
